@@ -4,8 +4,17 @@ from vlib import *
 
 RT_MAIN = os.path.join(VERIF, "harness", "rt_main")
 RT_LIB = os.path.join(VERIF, "harness", "rt_lib")
+JS_LAYOUT = os.path.join(VERIF, "harness", "js_layout")
+# crate dir, tag, properties served, needs /repo's Cargo.lock
+CRATES = [(RT_MAIN, "rt_main", {"C03", "C10", "C12", "C16"}, False),
+          (RT_LIB, "rt_lib", {"C03", "C16"}, True),
+          (JS_LAYOUT, "js_layout", {"C08"}, True)]
 
 BOUNDS = {
+    "C08": {"quick": "tool/src/js/layout.rs::struct_field_info / type_size_alignment_and_scalar_count / primitive_size_alignment: field sequences of length 1..4 "
+                     "whose variants are fixed per harness (22 masks over primitive / enum / primitive slice / str slice) with all 15 primitive kinds symbolic in every "
+                     "primitive position (15^4 kind sequences per mask); DiplomatOption<prim> and DiplomatOption<enum> as single fields; unwind 7 (recursion bound 2 for options)",
+            "thorough": "as quick plus three 5-field masks"},
     "C16": {"quick": "slices: every primitive element type, array of 4, symbolic length 0..4, NULL+0 views; "
                      "str: symbolic byte strings of length 0..4 accepted by from_utf8; diplomat_is_str: all byte "
                      "strings of length 0..4 (2^32 four-byte strings symbolically) vs. the Table 3-7 recogniser; unwind 6..10",
@@ -32,6 +41,10 @@ ASSUMPTIONS = [
 ]
 
 PER_PROP_ASSUMPTIONS = {
+    "C08": ["reduced scope: the Rust layout routine only; the JS text the back end emits (struct.js.jinja, runtime.mjs, argument flattening in gen.rs) has no symbolic engine here",
+            "reference model: C layout rules with wasm32 sizes (pointers, usize, enums = 4 bytes) and docs/wasm_abi_quirks.md typed padding (gap after a field counted in units of that field's alignment)",
+            "the TypeContext reference handed to the routine is uninitialised storage: any read of it would be flagged by CBMC, so 'no nested struct' is part of the bound",
+            "sequences containing DiplomatOption fields and nested options are outside the bound (CBMC cannot keep a boxed discriminant concrete; probes timed out)"],
     "C16": ["the UTF-8 reference recogniser (harness/rt_lib/src/utf8_ref.rs, written from Unicode Table 3-7) is the oracle; it is validated natively against std on all 0..3-byte strings and all 4-byte strings with lead EE..F5 by setup_cmd (cargo test)",
             "str harnesses assume the bytes are accepted by core::str::from_utf8 (documented invariant of DiplomatUtf8StrSlice)"],
     "C03": ["Tok payload: drop counter + owned heap cell, so a double drop is both a counter mismatch and a CBMC double free",
@@ -50,12 +63,11 @@ def run(prop):
     prefix = prop.lower() + "_"
     out = {"results": [], "crate_of": {}, "inconclusive": [], "tools": {}, "wall": 0.0}
     ht = 3000 if tier() == "thorough" else 900
-    for crate, tag in ((RT_MAIN, "rt_main"), (RT_LIB, "rt_lib")):
-        srcs = os.listdir(os.path.join(crate, "src"))
-        if not any(s.startswith(prefix) for s in srcs):
+    for crate, tag, serves, needs_lock in CRATES:
+        if prop not in serves:
             continue
         lock = os.path.join(crate, "Cargo.lock")
-        if tag == "rt_lib":
+        if needs_lock:
             shutil.copyfile(os.path.join(REPO, "Cargo.lock"), lock)
         res, tools, log_, ok, wall = kani_run(crate, tag, filters=[prefix], features=feats, harness_timeout=ht)
         out["wall"] += wall
@@ -64,7 +76,7 @@ def run(prop):
             out["inconclusive"].append("crate %s did not build/verify: %s" % (tag, compile_error_summary(log_) or log_[-1500:]))
             continue
         for name, r in res.items():
-            if not name.startswith(prefix):
+            if not (name.startswith(prefix) or ("::" + prefix) in name):
                 continue
             if r.status == "missing":
                 continue
